@@ -285,13 +285,15 @@ async def run_apply(sc, sim, res, tag):
         if sc["nested"] == 1 and pos:
             if hasattr(pos[0], "close"):
                 pos[0].close()
-            nested = pos_vals[0] = deep()
+            nested = deep()
+            pos_vals[0] = "the coroutine object itself"
             pos[0] = make_awaitable(sim, log, ("pos", 0), sc["susp"][0], nested, sc["coro"])
         elif sc["nested"] == 2 and kws:
             k0 = next(iter(kw_vals))
             if hasattr(kws[k0], "close"):
                 kws[k0].close()
-            nested = kw_vals[k0] = deep()
+            nested = deep()
+            kw_vals[k0] = "the coroutine object itself"
             kws[k0] = make_awaitable(sim, log, ("kw", k0), sc["susp"][0], nested, sc["coro"])
         if nested is not None:
             res["nested"] = True
@@ -300,6 +302,10 @@ async def run_apply(sc, sim, res, tag):
     def func(*args, **kwargs):
         if sc["fails"]:
             raise fault
+        if nested is not None:
+            # identity, not representation: the log must not depend on addresses
+            args = tuple("the coroutine object itself" if a is nested else a for a in args)
+            kwargs = {k: ("the coroutine object itself" if a is nested else a) for k, a in kwargs.items()}
         return ("result", args, tuple(sorted(kwargs.items())))
 
     async def afunc(*args, **kwargs):
